@@ -527,6 +527,8 @@ def w2_scan(F, R, tadt):
         R.check(len(types) == 1 and types[0] in (1, 2, 3, 4), 'W2', inst + ':cfg_type', site(sg, a), 'cfg_type == %s' % types, 'assigned for cfg_type values %s' % types)
         R.check(bars and max(bars) <= 5, 'W2', inst + ':reserved-bar', site(sg, a), 'capabilities with a reserved BAR value (>5) are ignored',
                 'a capability whose bar field is reserved (%s) is not ignored (VirtIO 1.2 4.1.4: MUST ignore); its value reaches BAR register arithmetic' % [b_ for b_ in bars if b_ > 5][:3])
+        R.check(bars == [0, 1, 4, 5], 'W2', inst + ':valid-bars', site(sg, a), 'capabilities in every BAR 0..5 are used',
+                'a capability located in BAR %s is ignored although BAR numbers 0..5 are valid: a device that places this structure there cannot be driven' % [b_ for b_ in (0, 1, 4, 5) if b_ not in bars])
     want_types = sorted(sum(kinds.values(), []))
     R.check(sorted(set(want_types)) == [1, 2, 3, 4], 'W2', '%s:all-four-types' % ctor['id'], where, 'common/notify/isr/device windows are all scanned',
             'capability types scanned: %s' % want_types)
@@ -560,13 +562,19 @@ def w2_scan(F, R, tadt):
         R.check(ok, 'W4', '%s:mmio-pointer' % ctor['id'], site(sg, n), 'MMIO pointer built from an admitted window',
                 'UniqueMmioPointer::new is fed by something other than the window admission function: %s' % fmt(t)[:200])
     mult_guard = False
+    mult_offs = set()
     for n in sg.nodes:
         if n.ctx == 0 and n.kind == 'switch':
             d = S.operand(n.id, n.d['discr'])
             for x in subterms(d):
                 if x[0] == 'bin' and x[1] == 'Rem' and fold_const(x[3]) == 2:
                     mult_guard = True
+                    for y in deep_subterms(S, x[2]):
+                        if y[0] == 'call' and y[2].endswith('read_word') and len(y[3]) > 2:
+                            mult_offs.add(cap_rel_offset(y[3][2]))
     R.check(mult_guard, 'W2', '%s:odd-multiplier' % ctor['id'], where, 'multiplier parity is tested', 'no test of notify_off_multiplier % 2')
+    R.check(mult_offs == {16}, 'W2', '%s:field:notify_off_multiplier' % ctor['id'], where, 'notify_off_multiplier read at capability offset +16',
+            'notify_off_multiplier is read at relative offsets %s, expected +16 (VirtIO 1.2 4.1.4.4)' % sorted(mult_offs, key=str))
 
 
 LEN_DOM = [0, 8, 15, 16, 19, 20, 24, 255]
@@ -590,7 +598,7 @@ def fold_guards(sg, S, numeric):
     out = []
     ID_DOM = [0x09, 0x05, 0x11]
     TY_DOM = [0, 1, 2, 3, 4, 5]
-    BAR_DOM = [0, 5, 6, 64, 255]
+    BAR_DOM = [0, 1, 4, 5, 6, 64, 255]
     for cid in ID_DOM:
         for clen in LEN_DOM:
             for cty in TY_DOM:
